@@ -624,7 +624,11 @@ class ExprMixin:
                     if some is None:
                         continue
                     s, base = some, self.unwrap(base)
-                outs.append((s, self.do_slice(base, lo, hi, step)))
+                self._slice_pc = s.pc
+                try:
+                    outs.append((s, self.do_slice(base, lo, hi, step)))
+                finally:
+                    self._slice_pc = None
             return outs
         for s, (base, idx) in self.ev_many([n.value, n.slice], st):
             outs += self.subscript(s, base, idx, n)
